@@ -148,7 +148,7 @@ for ch in ("A", "W"):
     for (nm, comps, vm, vl, vt) in NORM_SPLITS:
         ob(id="NormalizeMaskRequired.%s.%s.H" % (nm, ch), props=["C08", "C12", "C19", "C20"], route="H", harness="c08_normalize.c", char=ch,
            group="uriNormalizeSyntaxMaskRequiredEx: reported mask is sufficient (bit clear => component already normal), read-only",
-           defines={"VM": vm, "VL": vl, "VT": vt, "V_OWNED": 0, "VSTUB_MEMCPY": 3, "V_PART": 1, "V_COMPS": comps},
+           defines={"VM": vm, "VL": vl, "VT": vt, "V_OWNED": 0, "VSTUB_MEMCPY": 3, "V_PART": 1, "V_COMPS": comps, "VU_SLACK": 2},
            unwindset=norm_uw(ch, vm, vl), level="B",
            bounds="components admitted: %s; <=%d segments, <=%d characters per component" % (nm, vm, vl),
            functions=["uriNormalizeSyntaxMaskRequiredEx" + ch, "uriNormalizeSyntaxEngine" + ch],
@@ -204,3 +204,81 @@ for ch in ("A", "W"):
        loops=["UriEscape.loops"], loops_only=["UnescapeInPlaceEx"], level="P", bounds="string length symbolic up to 100000 characters",
        functions=["uriUnescapeInPlaceEx" + ch], inlined=["uriHexdigToInt" + ch], stubs=[],
        require_classes={"loop.contract": 3}, timeout_s=by_tier(1500, 3600), mem_gb=20)
+
+# ----------------------------------------------------------------------------------------------------------------
+# C03 (+C01/C02 safety half)  parser rule functions: interface contract by induction on the recursion (route D)
+RULES4 = ["ParseAuthority", "ParseHierPart", "ParseIpFutLoop", "ParseIpFutStopGo", "ParseIpFuture", "ParseIpLit2", "ParseMustBeSegmentNzNc",
+          "ParseOwnHost", "ParseOwnHost2", "ParseOwnHostUserInfo", "ParseOwnHostUserInfoNz", "ParseOwnPortUserInfo", "ParseOwnUserInfo",
+          "ParsePartHelperTwo", "ParsePathAbsEmpty", "ParsePathAbsNoLeadSlash", "ParsePathRootless", "ParsePchar", "ParsePctEncoded",
+          "ParsePctSubUnres", "ParseQueryFrag", "ParseSegment", "ParseSegmentNz", "ParseSegmentNzNcOrScheme2", "ParseUriReference",
+          "ParseUriTail", "ParseUriTailTwo", "ParseZeroMoreSlashSegs"]
+RULES3 = ["ParseAuthorityTwo", "ParseHexZero", "ParsePort"]
+PARSE_HELPERS = ["StopSyntax", "StopMalloc", "PushPathSegment", "FixEmptyTrailSegment", "OnExitOwnHost2", "OnExitOwnHostUserInfo",
+                 "OnExitOwnPortUserInfo", "OnExitSegmentNzNcOrScheme2", "OnExitPartHelperTwo", "ParseIPv6address2"]
+for ch in ("A", "W"):
+    allf = ["uri%s%s" % (f, ch) for f in RULES4 + RULES3 + PARSE_HELPERS]
+    for f in RULES4 + RULES3:
+        fn = "uri%s%s" % (f, ch)
+        ob(id="%s.%s.D" % (f, ch), props=["C03", "C01", "C02", "C19", "C20"], route="D", harness="d_parse.c", entry="h_" + f, char=ch,
+           group="parser rule functions: reads confined to the input, result/error position in range, no residue on failure, input never written (interface contract, induction on recursion)",
+           enforce=[fn], rec=True, replace=[g for g in allf if g != fn],
+           restrict_fp=(["uriParseIpLit2%s.function_pointer_call.1/pm_malloc_contract" % ch] if f == "ParseIpLit2" else []),
+           level="P", bounds="none (input length symbolic up to 10^6 characters: object size, not an unwinding bound)",
+           functions=[fn], stubs=["every callee by its contract (same text, enforced by the callee's own obligation)"],
+           require_classes={"contract.post": 2}, covers=False, object_bits=12, timeout_s=900, mem_gb=8)
+
+for ch in ("A", "W"):
+    ob(id="ParseIpFourAddress.%s.H" % ch, props=["C01", "C02", "C03", "C19"], route="H", harness="c02_ip4.c", char=ch,
+       group="uriParseIpFourAddress == RFC 3986 IPv4address recogniser, octet values, reads confined to the range (loop-free, all lengths)",
+       level="P", bounds="none (loop-free; text length symbolic up to 10^6)",
+       functions=["uriParseIpFourAddress" + ch, "uriParseDecOctet" + ch, "uriParseDecOctetOne" + ch, "uriParseDecOctetTwo" + ch,
+                  "uriParseDecOctetThree" + ch, "uriParseDecOctetFour" + ch, "uriPushToStack", "uriStackToOctet"],
+       inlined=["all of the above (verified in place)"], stubs=[], timeout_s=600, mem_gb=16)
+
+for ch in ("A", "W"):
+    for (entry, nm, props, fns) in (
+            ("h_free", "FreeUriMembersMm", ["C03", "C13", "C12", "C19"], ["uriFreeUriMembersMm"]),
+            ("h_push", "PushPathSegment", ["C02", "C03", "C07", "C14", "C19"], ["uriPushPathSegment"]),
+            ("h_fixtrail", "FixEmptyTrailSegment", ["C02", "C07", "C13", "C19"], ["uriFixEmptyTrailSegment"]),
+            ("h_stop", "StopSyntaxMalloc", ["C01", "C03", "C13", "C14", "C19"], ["uriStopSyntax", "uriStopMalloc", "uriFreeUriMembersMm"])):
+        ob(id="%s.%s.H" % (nm, ch), props=props, route="H", harness="c03_helpers.c", entry=entry, char=ch,
+           group="parser helpers owning the segment list and the error exits (the helper contracts assumed by the rule-function obligations, on the real code)",
+           defines=by_tier({"VM": 2, "VL": 2, "VT": 4}, {"VM": 4, "VL": 2, "VT": 4}),
+           unwindset=by_tier({"uriFreeUriMembersMm%s.*" % ch: 4}, {"uriFreeUriMembersMm%s.*" % ch: 6}),
+           level="B", bounds=by_tier("<=2 segments", "<=4 segments"), functions=[f + ch for f in fns], stubs=["memory manager (ledger stub)"],
+           timeout_s=600, mem_gb=8)
+
+for ch in ("A", "W"):
+    allf = ["uri%s%s" % (f, ch) for f in RULES4 + RULES3 + PARSE_HELPERS]
+    ob(id="ParseUriExMm.%s.D" % ch, props=["C01", "C03", "C19", "C20"], route="D", harness="d_parse.c", entry="h_ParseUriExMm", char=ch,
+       group="parser entry points: NULL arguments, whole range consumed or syntax error at the stop position inside the range, clamp, nothing left on failure",
+       enforce=["uriParseUriExMm" + ch], replace=allf + ["uriResetUri" + ch], level="P", bounds="none",
+       functions=["uriParseUriExMm" + ch, "uriResetParserStateExceptUri" + ch], stubs=["uriParseUriReference, uriStopSyntax, uriResetUri by contract"],
+       inlined=["uriMemoryManagerIsComplete", "uriResetParserStateExceptUri" + ch],
+       require_classes={"contract.post": 4}, covers=False, object_bits=12, timeout_s=900, mem_gb=8)
+    ob(id="ParseSingleUriExMm.%s.D" % ch, props=["C01", "C03", "C13", "C19", "C20"], route="D", harness="d_parse.c", entry="h_ParseSingleUriExMm", char=ch,
+       group="parser entry points: NULL arguments, whole range consumed or syntax error at the stop position inside the range, clamp, nothing left on failure",
+       enforce=["uriParseSingleUriExMm" + ch], replace=["uriParseUriExMm" + ch, "uriFreeUriMembersMm" + ch], level="P", bounds="none",
+       functions=["uriParseSingleUriExMm" + ch], stubs=["uriParseUriExMm, uriFreeUriMembersMm by contract"], inlined=["uriMemoryManagerIsComplete"],
+       require_classes={"contract.post": 4}, covers=False, object_bits=12, timeout_s=900, mem_gb=8)
+
+for ch in ("A", "W"):
+    ob(id="OnExitHost.%s.H" % ch, props=["C02", "C01", "C13", "C14", "C19"], route="H", harness="c03_helpers.c", entry="h_onexit", char=ch,
+       group="uriOnExitOwnHost2 / OwnHostUserInfo / OwnPortUserInfo: host range, mark moves, IPv4 classification against the RFC recogniser, octets, probe block",
+       defines={"VM": 1, "VL": 1, "VT": 2, "V_TXT": 16}, level="B",
+       bounds="host texts up to 16 characters (the IPv4 recogniser and uriParseIpFourAddress look at 16 characters at most; host texts of up to 16 characters are explored, longer ones are rejected by both after the same 16)",
+       functions=["uriOnExitOwnHost2" + ch, "uriOnExitOwnHostUserInfo" + ch, "uriOnExitOwnPortUserInfo" + ch],
+       inlined=["uriParseIpFourAddress" + ch], stubs=["memory manager (ledger stub)"], timeout_s=900, mem_gb=10)
+
+for ch in ("A", "W"):
+    for (tier, k) in ((Q, 8), (T, 12)):
+        ob(id="ParseIPv6address2.K%d.%s.H" % (k, ch), props=["C01", "C02", "C03", "C19"], route="H", harness="c02_ip6.c", char=ch, tier=tier,
+           quick_only=(tier == Q),
+           group="uriParseIPv6address2 == RFC 3986 IPv6address recogniser (accept/reject, address bytes, error position in the literal, reads confined) - bounded stand-in",
+           defines={"V_K": k, "SPEC_IP6_MAX": k},
+           unwindset={"uriParseIPv6address2%s.0" % ch: k + 1, "uriParseIPv6address2%s.1" % ch: k + 1, "uriParseIPv6address2%s.2" % ch: 3,
+                      "uriFreeUriMembersMm%s.*" % ch: 2},
+           level="B", bounds="literals (including the closing bracket) of at most %d characters" % k,
+           functions=["uriParseIPv6address2" + ch], inlined=["uriStopSyntax" + ch, "uriFreeUriMembersMm" + ch, "uriWriteQuadToDoubleByte", "uriGetOctetValue"],
+           stubs=["memory manager (ledger stub)", "memcpy/memset: CBMC models"], timeout_s=3000, mem_gb=(10 if k <= 8 else 24))
+
